@@ -27,7 +27,7 @@ static void gen_action(Rng &r, unsigned len, bool subst, Bytes &a, unsigned numU
             for (unsigned q = 1; q < len; ++q) w8(a, NEXT);
             w8(a, RET_ZERO); return;
         }
-        if (subst && s + 1 == len && r.chance(1, 30)) {   // deletes the look-ahead slot behind the matched range as well
+        if (subst && s + 1 == len && r.chance(1, 400)) {  // deletes the look-ahead slot behind the matched range as well: the loader must refuse it
             w8(a, DELETE); w8(a, NEXT); w8(a, DELETE); w8(a, RET_ZERO); return;
         }
         if (subst && r.chance(1, 25)) {     // insertion burst: many new slots from one input slot (slot-pool growth paths, growth cap)
